@@ -3,7 +3,7 @@ import BeffVerif.Model.Session
 # C14 — watch-mode rebuilds depend on current file contents only, not on edit history
 
 For EVERY world (parser, compiler), every initial contents and every finite history of updates and rebuilds —
-contents that parse, that do not resolve, that do not parse — the output of a rebuild in the long-lived session, asked under some settings, is the
+contents that parse, that do not resolve, that do not parse, files that are created on the way — the output of a rebuild in the long-lived session, asked under some settings, is the
 output of a fresh session on the current contents under the same settings (`rebuild_eq_fresh`, `history_independent`). The proof is the
 invariant "the cache only holds what parsing the current content gives". With the behaviour before fix D66
 (`keepStale = true`: a content that does not parse leaves the previous module in the cache) the statement is false:
@@ -14,7 +14,7 @@ open BeffVerif.Session
 
 variable {File Content Mod Sett Out : Type} [DecidableEq File]
 
-theorem inv_fresh (w : World File Content Mod Sett Out) (disk : File → Content) : Inv w (fresh disk : State File Content Mod) := by
+theorem inv_fresh (w : World File Content Mod Sett Out) (disk : File → Option Content) : Inv w (fresh disk : State File Content Mod) := by
   intro f m h; simp [fresh] at h
 
 theorem inv_update (w : World File Content Mod Sett Out) (s : State File Content Mod) (f : File) (c : Content)
@@ -24,19 +24,41 @@ theorem inv_update (w : World File Content Mod Sett Out) (s : State File Content
   simp only at hg ⊢
   by_cases e : g = f
   · subst e
-    simp only [if_true] at hg ⊢
-    cases hp : w.parse g c with
-    | some m' => rw [hp] at hg; exact hg
+    simp only [if_true] at hg
+    refine ⟨c, by simp, ?_⟩
+    cases hp : w.parse (fun h => (if h = g then some c else s.disk h).isSome) g c with
+    | some m' => rw [hp] at hg; simp only [Bool.false_eq_true, if_false] at hg; rw [← hg]; exact hp
     | none => rw [hp] at hg; simp at hg
-  · simp only [e, if_false] at hg ⊢
-    exact h g m hg
+  · simp only [e, if_false] at hg
+    by_cases hn : (s.disk f).isNone = true
+    · simp [hn] at hg
+    · simp only [hn, Bool.false_eq_true, if_false] at hg
+      obtain ⟨c0, hd, hp⟩ := h g m hg
+      refine ⟨c0, by simp [e, hd], ?_⟩
+      -- the updated file existed before: what exists did not change
+      have hex : (fun h => ((fun g' => if g' = f then some c else s.disk g') h).isSome) = existing s := by
+        funext h'
+        unfold existing
+        by_cases e' : h' = f
+        · subst e'
+          simp only [if_true, Option.isSome_some]
+          cases hdf : s.disk h' with
+          | none => simp [hdf] at hn
+          | some _ => rfl
+        · simp [e']
+      unfold existing at hex ⊢
+      simp only at hex ⊢
+      rw [hex]
+      exact hp
 
 theorem view_of_inv (w : World File Content Mod Sett Out) (s : State File Content Mod) (h : Inv w s) :
-    view w s = fun f => w.parse f (s.disk f) := by
+    view w s = fun f => (s.disk f).bind (w.parse (existing s) f) := by
   funext f
   unfold view
   cases hc : s.cache f with
-  | some m => exact (h f m hc).symm
+  | some m =>
+    obtain ⟨c, hd, hp⟩ := h f m hc
+    simp [hd, hp]
   | none => rfl
 
 theorem inv_rebuild (w : World File Content Mod Sett Out) (s : State File Content Mod) (σ : Sett) (h : Inv w s) :
@@ -45,7 +67,14 @@ theorem inv_rebuild (w : World File Content Mod Sett Out) (s : State File Conten
   unfold rebuild at hg ⊢
   simp only at hg ⊢
   split at hg
-  · rw [view_of_inv w s h] at hg; exact hg
+  · rw [view_of_inv w s h] at hg
+    simp only at hg
+    cases hd : s.disk g with
+    | none => rw [hd] at hg; simp at hg
+    | some c =>
+      rw [hd] at hg
+      simp only [Option.bind_some] at hg
+      exact ⟨c, rfl, hg⟩
   · exact h g m hg
 
 theorem disk_rebuild (w : World File Content Mod Sett Out) (s : State File Content Mod) (σ : Sett) : (rebuild w s σ).1.disk = s.disk := rfl
@@ -59,7 +88,7 @@ theorem rebuild_eq_fresh (w : World File Content Mod Sett Out) (s : State File C
   rfl
 
 /-- the outputs a history produces, paired with the disk at the time of each rebuild -/
-def disksAtRebuilds (w : World File Content Mod Sett Out) : State File Content Mod → List (Op File Content Sett) → List (Sett × (File → Content))
+def disksAtRebuilds (w : World File Content Mod Sett Out) : State File Content Mod → List (Op File Content Sett) → List (Sett × (File → Option Content))
   | _, [] => []
   | s, .update f c :: rest => disksAtRebuilds w (update w false s f c) rest
   | s, .rebuild σ :: rest => (σ, s.disk) :: disksAtRebuilds w (rebuild w s σ).1 rest
@@ -83,31 +112,42 @@ theorem history_independent (w : World File Content Mod Sett Out) (ops : List (O
 
 /-- the disk only depends on the updates (so "the file contents of that moment" are the last contents written) -/
 theorem disk_after_update (w : World File Content Mod Sett Out) (s : State File Content Mod) (f g : File) (c : Content) :
-    (update w false s f c).disk g = if g = f then c else s.disk g := rfl
+    (update w false s f c).disk g = if g = f then some c else s.disk g := rfl
 
 -- ---------- the behaviour before fix D66 is history dependent ----------
 /-- a two-file-free witness world: contents are numbers, 0 does not parse, the compiler reports the module of file 0 -/
 def demoWorld : World Nat Nat Nat Unit (Option Nat) :=
-  { parse := fun _ c => if c = 0 then none else some c
+  { parse := fun _ _ c => if c = 0 then none else some c
     extract := fun _ v => v 0
     touched := fun _ _ => [0] }
 
 /-- before the fix: rebuild (caches content 5), update to a broken content, rebuild → still 5; a fresh session: none -/
 theorem stale_module_breaks_history_independence :
-    (run demoWorld true (fresh (fun _ => 5)) [.rebuild (), .update 0 0, .rebuild ()]).2 = [some 5, some 5] ∧
-    (rebuild demoWorld (fresh (fun _ => 0) : State Nat Nat Nat) ()).2 = none := by decide
+    (run demoWorld true (fresh (fun _ => some 5)) [.rebuild (), .update 0 0, .rebuild ()]).2 = [some 5, some 5] ∧
+    (rebuild demoWorld (fresh (fun _ => some 0) : State Nat Nat Nat) ()).2 = none := by decide
 
 /-- the same history after the fix -/
-example : (run demoWorld false (fresh (fun _ => 5)) [.rebuild (), .update 0 0, .rebuild ()]).2 = [some 5, none] := by decide
+example : (run demoWorld false (fresh (fun _ => some 5)) [.rebuild (), .update 0 0, .rebuild ()]).2 = [some 5, none] := by decide
 
 /-- settings are part of the question: a world whose compiler reports whether the format the module asks for (its number)
 is among the registered ones — two rebuilds in a row that differ in nothing but the settings answer differently, each as a
 fresh session under ITS settings does -/
 def fmtWorld : World Nat Nat Nat (List Nat) Bool :=
-  { parse := fun _ c => some c
+  { parse := fun _ _ c => some c
     extract := fun σ v => match v 0 with | some m => σ.contains m | none => false
     touched := fun _ _ => [0] }
 
-example : (run fmtWorld false (fresh (fun _ => 7)) [.rebuild [7], .rebuild [], .rebuild [7, 8]]).2 = [true, false, true] := by decide
+example : (run fmtWorld false (fresh (fun _ => some 7)) [.rebuild [7], .rebuild [], .rebuild [7, 8]]).2 = [true, false, true] := by decide
+
+/-- files may be CREATED during a session: a world whose parser reports whether file 1 exists (what an import of it resolves
+to), compiled from file 0 — after file 1 is created the rebuild sees it, as a fresh session does, because the creation of a
+file drops every cached module (the repaired D94; seeds C10-r12 / C14-r12 are the loss of this for a new file that does not parse) -/
+def importWorld : World Nat Nat Bool Unit (Option Bool) :=
+  { parse := fun ex f _ => if f = 0 then some (ex 1) else some true
+    extract := fun _ v => v 0
+    touched := fun _ _ => [0] }
+
+example : (run importWorld false (fresh (fun f => if f = 0 then some 1 else none)) [.rebuild (), .update 1 9, .rebuild ()]).2
+    = [some false, some true] := by decide
 
 end BeffVerif.C14
